@@ -3,6 +3,7 @@ package props
 import (
 	"errors"
 	"fmt"
+	"os"
 	"path"
 	"path/filepath"
 	"sort"
@@ -20,6 +21,10 @@ type C05Case struct {
 	Part     string        `json:"part"`
 	Packager string        `json:"packager"`
 	List     []model.Entry `json:"list"`
+	// Cwd / Spelling: the working directory (fixture relative) and the literal source spelling handed to the planner
+	// for the first entry (the reference planner works with List[0].Src, which names the same directory)
+	Cwd      string `json:"cwd,omitempty"`
+	Spelling string `json:"spelling,omitempty"`
 }
 
 type c05Tmpl struct {
@@ -201,6 +206,28 @@ func init() {
 					}
 				}
 			}
+			// sources spelled relative to the working directory, incl. the working directory itself (dot files keep their dot)
+			for _, sp := range []struct{ cwd, spelling, src string }{
+				{"dots", ".", "dots"}, {"dots", "./", "dots"}, {"dots", "../dots", "dots"}, {"dots", "./.", "dots"}, {"dots/sub", "..", "dots"},
+				{"", "dots", "dots"}, {"", "./dots/", "dots"}, {"dots", ".config", "dots/.config"}, {"dots", "./.config/", "dots/.config"}, {"dots/.config", ".", "dots/.config"},
+			} {
+				for _, typ := range []string{"tree", ""} {
+					if typ == "" && strings.Trim(sp.spelling, "./") == "" {
+						continue // the working directory itself as a plain (globbed) source has no documented meaning
+					}
+					for _, dst := range []string{"/opt/app", "/opt/app/", "/"} {
+						for _, p := range []string{"deb", "rpm"} {
+							e := model.Entry{Src: sp.src, Dst: dst, Type: typ}
+							if !yield(C05Case{Part: "cwd", Packager: p, List: []model.Entry{e}, Cwd: sp.cwd, Spelling: sp.spelling}) {
+								return
+							}
+							if !yield(C05Case{Part: "cwd", Packager: p, List: []model.Entry{e, {Src: "etc/app.conf", Dst: "/opt/app/env2"}}, Cwd: sp.cwd, Spelling: sp.spelling}) {
+								return
+							}
+						}
+					}
+				}
+			}
 			// the deb changelog entry next to a content entry at the changelog's own path: an entry addressed to another
 			// packager does not touch it, an entry that deb itself ships there collides with it
 			for _, tag := range []string{"rpm", "apk", "ipk", "archlinux", "", "deb"} {
@@ -350,7 +377,20 @@ func checkC05(env *engine.Env, ci any) engine.Outcome {
 		out.Key = "unclear"
 		return out
 	}
-	got, err := files.PrepareForPackager(toContents(c.List, t), umask, c.Packager, false, PkgMTime)
+	contents := toContents(c.List, t)
+	if c.Cwd != "" {
+		old, werr := os.Getwd()
+		if werr == nil {
+			werr = os.Chdir(t.P(c.Cwd))
+		}
+		if werr != nil {
+			out.HarnessError = werr.Error()
+			return out
+		}
+		defer os.Chdir(old)
+		contents[0].Source = c.Spelling
+	}
+	got, err := files.PrepareForPackager(contents, umask, c.Packager, false, PkgMTime)
 	viol := func(sig, format string, a ...any) {
 		out.Violations = append(out.Violations, engine.Violation{Sig: sig, Detail: fmt.Sprintf("packager=%q list=%s\n", c.Packager, descList(c.List)) + fmt.Sprintf(format, a...)})
 	}
@@ -446,7 +486,11 @@ func checkC05(env *engine.Env, ci any) engine.Outcome {
 				viol("plan:entries:link-target", "symlink %q targets %q, declared/literal target is %q", g.Destination, g.Source, w.Src)
 			}
 		default:
-			if w.Src != "" && g.Source != filepath.ToSlash(filepath.Join(t.Root, w.Src)) {
+			gsrc := g.Source
+			if c.Cwd != "" && !filepath.IsAbs(gsrc) {
+				gsrc = filepath.Join(t.P(c.Cwd), gsrc) // planned relative to the working directory: the same file
+			}
+			if w.Src != "" && filepath.Clean(gsrc) != filepath.ToSlash(filepath.Join(t.Root, w.Src)) {
 				viol("plan:entries:source:"+w.Kind, "%q is sourced from %q, the configuration maps %q there", g.Destination, g.Source, w.Src)
 			}
 		}
